@@ -117,7 +117,19 @@ def or : Nat := 507
 def add : Nat := 508
 def sub : Nat := 509
 def mul : Nat := 510
+-- more names
+def S.static_text : Nat := 305
+def S.into_raw : Nat := 306
+def get : Nat := 229
+def checked_sub : Nat := 230
+def token : Nat := 231
+def node : Nat := 232
+def intern : Nat := 233
+def into_owned : Nat := 234
 -- fields
+def field.parent_idx : Nat := 610
+def field.child_idx : Nat := 611
+def field.interner : Nat := 612
 def field.offset : Nat := 600
 def field.parent : Nat := 601
 def field.index : Nat := 602
@@ -140,6 +152,7 @@ inductive Val where
   | fn (k : Nat)                        -- a function value (a closure parameter such as `f` in `map`)
   | ctor (c : Nat) (args : List Val)    -- enum variant, `Some`/`None`, tuple (`c = 0`)
   | strct (fields : List (Nat × Val))   -- struct
+  | sym (id : Nat) (v : Val)            -- a value known to the `Sem` under a name: operators on it are the `Sem`'s to answer
   deriving Inhabited
 
 mutual
@@ -152,6 +165,7 @@ def Val.beq : Val → Val → Bool
   | .fn a, .fn b => a == b
   | .ctor c as, .ctor d bs => c == d && Val.beqL as bs
   | .strct fs, .strct gs => Val.beqF fs gs
+  | .sym i a, .sym j b => i == j && Val.beq a b
   | _, _ => false
 def Val.beqL : List Val → List Val → Bool
   | [], [] => true
@@ -175,6 +189,7 @@ inductive Pat where
   | bind (x : Nat)
   | lit (n : Nat)
   | ctor (c : Nat) (args : List Pat)
+  | strct (fields : List (Nat × Pat))                  -- `T { f: p, g, .. }`: the listed fields
   deriving Inhabited
 
 mutual
@@ -202,6 +217,7 @@ inductive Expr where
   | brk
   | mac (m : Nat) (args : List Expr)
   | closure (params : List Pat) (body : Expr)
+  | mkStrct (fields : List (Nat × Expr))               -- struct literal `T { f: e, … }`
   | unknown
 inductive Stmt where
   | letS (p : Pat) (e : Expr)
@@ -242,6 +258,7 @@ def recSet (fs : List (Nat × Val)) (f : Nat) (v : Val) : List (Nat × Val) := E
     or "no meaning given" -/
 inductive MRes where
   | ok (v : Val) (recv : Val)
+  | okM (v : Val) (recv : Val) (args : List Val)       -- also the arguments afterwards (`&mut` parameters)
   | panic
   | unknown
 
@@ -276,10 +293,20 @@ mutual
 def matchPat : Pat → Val → Env → Option Env
   | .wild, _, ρ => some ρ
   | .bind x, v, ρ => some (ρ.set x v)
+  | .lit n, .sym _ (.nat m), ρ => if n == m then some ρ else none
   | .lit n, .nat m, ρ => if n == m then some ρ else none
   | .lit _, _, _ => none
   | .ctor c ps, .ctor d vs, ρ => if c == d then matchPats ps vs ρ else none
   | .ctor _ _, _, _ => none
+  | .strct fps, .strct fs, ρ => matchFields fps fs ρ
+  | .strct _, _, _ => none
+def matchFields : List (Nat × Pat) → List (Nat × Val) → Env → Option Env
+  | [], _, ρ => some ρ
+  | (f, p) :: fps, fs, ρ => match recGet fs f with
+    | some v => (match matchPat p v ρ with
+      | some ρ' => matchFields fps fs ρ'
+      | none => none)
+    | none => none
 def matchPats : List Pat → List Val → Env → Option Env
   | [], [], ρ => some ρ
   | p :: ps, v :: vs, ρ => match matchPat p v ρ with
@@ -309,6 +336,16 @@ def isPlace : Expr → Bool
   | .field e _ => isPlace e
   | _ => false
 
+/-- after a call that mutated `&mut` arguments: the arguments that are places take their new values -/
+def writeBack (ρ : Env) : List Expr → List Val → Option Env
+  | [], _ => some ρ
+  | _ :: _, [] => some ρ
+  | e :: es, v :: vs =>
+    if isPlace e then (match writePlace ρ e v with
+      | some ρ' => writeBack ρ' es vs
+      | none => none)
+    else writeBack ρ es vs
+
 /-! ### operators -/
 
 def binop (op : Nat) (a b : Val) : Option Val :=
@@ -326,6 +363,10 @@ def binop (op : Nat) (a b : Val) : Option Val :=
       else none
     | _, _ => none
 
+def isSym : Val → Bool
+  | .sym _ _ => true
+  | _ => false
+
 /-! ### the evaluator -/
 
 mutual
@@ -341,6 +382,9 @@ def eval (S : Sem) : Nat → Env → Expr → Res
     | .unknown => .stuck
     | .brk => .brk ρ
     | .closure _ _ => .stuck
+    | .mkStrct fes => match evalL S fuel ρ (fes.map (·.2)) with
+      | .ok vs ρ' => .ok (.strct ((fes.map (·.1)).zip vs)) ρ'
+      | .ret v ρ' => .ret v ρ' | .brk ρ' => .brk ρ' | .panic => .panic | .stuck => .stuck
     | .ctor c args => match evalL S fuel ρ args with
       | .ok vs ρ' => .ok (.ctor c vs) ρ'
       | .ret v ρ' => .ret v ρ' | .brk ρ' => .brk ρ' | .panic => .panic | .stuck => .stuck
@@ -354,7 +398,7 @@ def eval (S : Sem) : Nat → Env → Expr → Res
           | _, _ => .stuck
         | _ => .stuck
       else match evalL S fuel ρ args with
-        | .ok vs ρ' => (match S.call f vs with | .ok v _ => .ok v ρ' | .panic => .panic | .unknown => .stuck)
+        | .ok vs ρ' => (match S.call f vs with | .ok v _ => .ok v ρ' | .okM v _ _ => .ok v ρ' | .panic => .panic | .unknown => .stuck)
         | .ret v ρ' => .ret v ρ' | .brk ρ' => .brk ρ' | .panic => .panic | .stuck => .stuck
     | .app f args => match eval S fuel ρ f with
       | .ok (.fn k) ρ' => (match evalL S fuel ρ' args with
@@ -401,9 +445,14 @@ def eval (S : Sem) : Nat → Env → Expr → Res
             | r => if x then .ok (.bool true) ρ' else r)
           | _ => .stuck)
         else (match eval S fuel ρ' b with
-          | .ok vb ρ'' => (match binop op va vb with
+          | .ok vb ρ'' => (match (if isSym va || isSym vb then none else binop op va vb) with
             | some v => .ok v ρ''
-            | none => if op == N.sub then .panic else .stuck)
+            | none =>
+              -- operands that are not literal numbers (opaque quantities): the `Sem` answers
+              (match va, vb with
+               | .nat _, .nat _ => if op == N.sub then .panic else .stuck
+               | _, _ => (match S.call op [va, vb] with
+                 | .ok v _ => .ok v ρ'' | .okM v _ _ => .ok v ρ'' | .panic => .panic | .unknown => .stuck)))
           | r => r)
       | r => r
     | .neg a => match eval S fuel ρ a with
@@ -472,7 +521,7 @@ def eval (S : Sem) : Nat → Env → Expr → Res
         | [] => .stuck
       else if m == N.format then
         match evalL S fuel ρ args with
-        | .ok vs ρ' => (match S.call N.format vs with | .ok v _ => .ok v ρ' | .panic => .panic | .unknown => .stuck)
+        | .ok vs ρ' => (match S.call N.format vs with | .ok v _ => .ok v ρ' | .okM v _ _ => .ok v ρ' | .panic => .panic | .unknown => .stuck)
         | .ret v ρ' => .ret v ρ' | .brk ρ' => .brk ρ' | .panic => .panic | .stuck => .stuck
       else .stuck
 
@@ -587,6 +636,12 @@ def evalMeth (S : Sem) : Nat → Env → Expr → Val → Nat → List Expr → 
         | .ok r rv' =>
           if isPlace recv then (match writePlace ρ' recv rv' with | some ρ'' => .ok r ρ'' | none => .stuck)
           else .ok r ρ'
+        | .okM r rv' avs =>
+          (match writeBack ρ' args avs with
+           | some ρ'' =>
+             if isPlace recv then (match writePlace ρ'' recv rv' with | some ρ3 => .ok r ρ3 | none => .stuck)
+             else .ok r ρ''
+           | none => .stuck)
         | .panic => .panic
         | .unknown => .stuck)
       | .ret v ρ' => .ret v ρ' | .brk ρ' => .brk ρ' | .panic => .panic | .stuck => .stuck
